@@ -448,8 +448,8 @@ def install(E, mdir):
     I[RT + 'SqlSame'] = same
     def count(e, a):
         db = db_of(e, a[0]); t = db.tabs[a[1].c]; col = a[2].c; val = a[3]
-        terms = [z3.If(z3.And(pres(r), veq(e, r.c[col], val)), z3.BitVecVal(1, 192), z3.BitVecVal(0, 192)) for r in t.rows]
-        s = z3.BitVecVal(0, 192)
-        for x in terms: s = s + x
+        w = max(2, len(t.rows).bit_length() + 2)
+        s = z3.BitVecVal(0, w)
+        for r in t.rows: s = s + z3.If(z3.And(pres(r), veq(e, r.c[col], val)), z3.BitVecVal(1, w), z3.BitVecVal(0, w))
         return Opaque('Z', s)
     I[RT + 'SqlCount'] = count
